@@ -16,7 +16,7 @@
    Everything else of the property's grammar is covered by the correspondence check only
    (checks/c06.py: a test, labelled as such in the manifest). *)
 From GoldV Require Import Base Tokens Keywords Lexer AstKinds Tree Strings PComb Grammar Ladder
-                          RTComb LadderProofs LadderNames ExprRT RangeEnc TypeRT StmtRT DeclRT FuelIndep FileRT.
+                          RTComb LadderProofs LadderNames ExprRT Encase RangeEnc TypeRT StmtRT DeclRT FuelIndep FileRT EnclRT.
 From Coq Require Import Lia.
 
 (* ---------- 1. the generated ladder ---------- *)
@@ -180,6 +180,23 @@ Proof. exact innermost_is_ident. Qed.
 
 Theorem C06_expr_within_span : forall f ts n, GExpr f ts n -> tord ts -> range_wf (nrange n) /\ within ts n.
 Proof. exact expr_within_span. Qed.
+
+(* range enclosure beyond expressions.  [Ord lo ts hi]: the tokens ts are lexer-ordered (tord) and lie between the
+   positions lo and hi; [IE lo hi n]: the node n lies in [lo, hi], its range is well formed, and every node of the tree
+   n encloses its children ([enc_tree]) *)
+Theorem C06_type_encloses : forall f ts n lo hi, GType f ts n -> Ord lo ts hi -> IE lo hi n.
+Proof. exact type_enc. Qed.
+
+Theorem C06_stmt_encloses : forall f ts n lo hi, GStmt f ts n -> Ord lo ts hi -> IE lo hi n.
+Proof. exact stmt_enc. Qed.
+
+Theorem C06_decl_encloses : forall fuel ts n lo hi, Decl fuel ts n -> Ord lo ts hi -> IE lo hi n.
+Proof. exact Decl_enc. Qed.
+
+(* whole files: for lexer-ordered tokens, every node of every declaration of a derivable file (types, parameters,
+   statements nested to any depth, expressions) encloses its children *)
+Theorem C06_file_encloses : forall fuel ts ns, Decls fuel ts ns -> tord ts -> Forall enc_tree ns.
+Proof. exact file_encloses. Qed.
 
 (* ---------- 5. types, statements, declarations, files ---------- *)
 
@@ -417,6 +434,10 @@ Print Assumptions C06_range_encloses.
 Print Assumptions C06_binop_range.
 Print Assumptions C06_innermost_is_ident.
 Print Assumptions C06_expr_within_span.
+Print Assumptions C06_type_encloses.
+Print Assumptions C06_stmt_encloses.
+Print Assumptions C06_decl_encloses.
+Print Assumptions C06_file_encloses.
 Print Assumptions C06_type_roundtrip.
 Print Assumptions C06_params_roundtrip.
 Print Assumptions C06_stmt_roundtrip.
